@@ -255,6 +255,35 @@ func bcOracle(r *bcRun) {
 	for i, o := range r.Ops {
 		opByName[opName(i, o)] = o
 	}
+	regAt := map[string]int{}     // op name -> trace index of its registration
+	regKey := map[string]string{} // op name -> key it registered on
+	freedAt := map[string][]int{} // key -> trace indices at which it was freed ("*" = the broadcaster was closed)
+	for ti, e := range r.Trace {
+		switch e.Point {
+		case "rcv.registered":
+			regAt[e.G], regKey[e.G] = ti, e.Key
+		case "free.done":
+			freedAt[e.Key] = append(freedAt[e.Key], ti)
+		case "close.done":
+			freedAt["*"] = append(freedAt["*"], ti)
+		}
+	}
+	// "…or a 'closed' error and never blocks once one of those applies": judged by KEY — a Free of the key (or a Close)
+	// after the receiver registered releases it, whatever table entry it happens to stand on
+	freedAfterReg := func(name string) bool {
+		at, ok := regAt[name]
+		if !ok {
+			return false
+		}
+		for _, k := range []string{regKey[name], "*"} {
+			for _, f := range freedAt[k] {
+				if f > at {
+					return true
+				}
+			}
+		}
+		return false
+	}
 	for _, e := range r.Trace {
 		switch e.Point {
 		case "rcv.created":
@@ -324,7 +353,7 @@ func bcOracle(r *bcRun) {
 				r.Problems = append(r.Problems, name+" is blocked inside Receive itself")
 			} else if cancelled[o.Ctx] {
 				r.Problems = append(r.Problems, name+" still blocked although its context is done")
-			} else if freed[g] {
+			} else if freed[g] || freedAfterReg(name) {
 				r.Problems = append(r.Problems, name+" still blocked although its key was freed / the broadcaster closed")
 			}
 		case "P":
